@@ -65,3 +65,177 @@ def check(fnode):
                 if k is not None:
                     written[k] = s
     return n, bad
+
+
+# ----------------------------------------------------------------------------- two-ended sweep covers every index once
+def _lin(e, env, depth=0):
+    """value of an integer index expression as  a*q + b  (Fractions) for the outer symbol k = 2q + p, or None.
+    env: name -> (a, b) | ast expression (local single assignment, resolved on demand)"""
+    from fractions import Fraction as F
+    import math
+    if depth > 12:
+        return None
+    if isinstance(e, ast.Constant) and isinstance(e.value, int) and not isinstance(e.value, bool):
+        return (F(0), F(e.value))
+    if isinstance(e, ast.Name):
+        v = env.get(e.id)
+        if isinstance(v, tuple):
+            return v
+        if isinstance(v, ast.AST):
+            return _lin(v, env, depth + 1)
+        return None
+    if isinstance(e, ast.UnaryOp) and isinstance(e.op, ast.USub):
+        v = _lin(e.operand, env, depth + 1)
+        return None if v is None else (-v[0], -v[1])
+    if isinstance(e, ast.Call) and isinstance(e.func, ast.Name) and e.func.id == 'int' and len(e.args) == 1 and not e.keywords:
+        v = _lin(e.args[0], env, depth + 1)
+        if v is None or v[0].denominator != 1:
+            return None
+        # int() truncates toward zero; with q >= 1 and a >= 0 the value is non-negative when b >= -a
+        if v[0] >= 0 and v[0] + v[1] >= 0:
+            return (v[0], F(math.floor(v[1])))
+        return None
+    if isinstance(e, ast.BinOp):
+        l = _lin(e.left, env, depth + 1)
+        r = _lin(e.right, env, depth + 1)
+        if l is None or r is None:
+            return None
+        if isinstance(e.op, ast.Add):
+            return (l[0] + r[0], l[1] + r[1])
+        if isinstance(e.op, ast.Sub):
+            return (l[0] - r[0], l[1] - r[1])
+        if isinstance(e.op, ast.Mult):
+            if l[0] == 0:
+                return (r[0] * l[1], r[1] * l[1])
+            if r[0] == 0:
+                return (l[0] * r[1], l[1] * r[1])
+            return None
+        if isinstance(e.op, (ast.FloorDiv, ast.Div)) and r[0] == 0 and r[1] > 0:
+            a, b = l[0] / r[1], l[1] / r[1]
+            if isinstance(e.op, ast.Div):
+                return (a, b)
+            if a.denominator != 1:
+                return None
+            return (a, F(math.floor(b)))          # q is an integer: floor(a*q + b) = a*q + floor(b)
+        if isinstance(e.op, ast.RShift) and r[0] == 0 and r[1] >= 0:
+            d = 2 ** int(r[1])
+            a, b = l[0] / d, l[1] / d
+            if a.denominator != 1:
+                return None
+            return (a, F(math.floor(b)))
+    return None
+
+
+def _range_bounds(it):
+    if not (isinstance(it, ast.Call) and isinstance(it.func, ast.Name) and it.func.id == 'range' and not it.keywords):
+        return None
+    if len(it.args) == 1:
+        return ast.Constant(0), it.args[0]
+    if len(it.args) == 2:
+        return it.args[0], it.args[1]
+    return None
+
+
+def sweep_check(fnode):
+    """The in-place step-up visits the coefficient pairs (j, c - j): the sweep  for j in range(lo, H)  that stores both A[j] and
+    A[c - j] must take every index of [lo, c - lo] exactly once, i.e. H - lo = (c - 2*lo + 2)//2 for both parities of the
+    order k.  One pass short leaves a pair at the previous order; one pass too many updates the middle pair a second time
+    with already-updated values.  Returns (sweeps examined, [(loop, got_even, want_even, got_odd, want_odd)])."""
+    from fractions import Fraction as F
+    import math
+    n = 0
+    bad = []
+    for outer in [x for x in ast.walk(fnode) if isinstance(x, ast.For) and isinstance(x.target, ast.Name)]:
+        kname = outer.target.id
+        # single assignments to plain names anywhere in the outer body (khalf = (k+1)//2, kj = k-j-1)
+        assigns = {}
+        for s in ast.walk(outer):
+            if isinstance(s, ast.Assign) and len(s.targets) == 1 and isinstance(s.targets[0], ast.Name):
+                assigns.setdefault(s.targets[0].id, []).append(s.value)
+        for inner in [x for x in ast.walk(outer) if isinstance(x, ast.For) and x is not outer and isinstance(x.target, ast.Name)]:
+            rb = _range_bounds(inner.iter)
+            if rb is None:
+                continue
+            jname = inner.target.id
+            # stores A[j] and A[E] in this body with the same array
+            stores = {}
+            for s in ast.walk(inner):
+                tg = []
+                if isinstance(s, ast.Assign):
+                    for t in s.targets:
+                        tg += list(t.elts) if isinstance(t, (ast.Tuple, ast.List)) else [t]
+                elif isinstance(s, ast.AugAssign):
+                    tg = [s.target]
+                for t in tg:
+                    if isinstance(t, ast.Subscript) and isinstance(t.value, ast.Name) and not isinstance(t.slice, ast.Slice):
+                        stores.setdefault(t.value.id, []).append(t.slice)
+            res = {}
+            for parity in (0, 1):
+                env = {kname: (F(2), F(parity))}
+                for nm, vals in assigns.items():
+                    if len({ast.dump(v_) for v_ in vals}) == 1 and nm not in (kname, jname):
+                        env[nm] = vals[0]
+                lo = _lin(rb[0], env)
+                hi = _lin(rb[1], env)
+                if lo is None or hi is None:
+                    res = None
+                    break
+                # mirror index: an index expression that is  c - j
+                cs = set()
+                direct = False
+                for arr, idxs in stores.items():
+                    has_j = any(isinstance(i, ast.Name) and i.id == jname for i in idxs)
+                    if not has_j:
+                        continue
+                    for i in idxs:
+                        if isinstance(i, ast.Name) and i.id == jname:
+                            direct = True
+                            continue
+                        e0 = _lin(i, dict(env, **{jname: (F(0), F(0))}))
+                        e1 = _lin(i, dict(env, **{jname: (F(0), F(1))}))
+                        if e0 is None or e1 is None:
+                            continue
+                        if (e1[0] - e0[0], e1[1] - e0[1]) == (F(0), F(-1)):
+                            cs.add(e0)
+                if not direct or len(cs) != 1:
+                    res = None
+                    break
+                c = list(cs)[0]
+                # want: hi - lo == floor((c - 2*lo + 2) / 2)
+                wa, wb = (c[0] - 2 * lo[0]) / 2, (c[1] - 2 * lo[1] + 2) / 2
+                if wa.denominator != 1:
+                    res = None
+                    break
+                want = (wa, F(math.floor(wb)))
+                got = (hi[0] - lo[0], hi[1] - lo[1])
+                if got != want and (c[0] - 2 * lo[0], c[1] - 2 * lo[1]) == (2 * got[0], 2 * got[1]):
+                    # the sweep takes the pairs of two distinct positions only (one pass fewer when the count is odd): fine when
+                    # the self-paired middle position lo + got is updated by a store of its own in the outer iteration
+                    mid = (lo[0] + got[0], lo[1] + got[1])
+                    arrs = {a_ for a_, idxs in stores.items() if any(isinstance(i, ast.Name) and i.id == jname for i in idxs)}
+                    inner_nodes = {id(x) for x in ast.walk(inner)}
+                    for s_ in ast.walk(outer):
+                        if id(s_) in inner_nodes or not isinstance(s_, (ast.Assign, ast.AugAssign)):
+                            continue
+                        tg = s_.targets if isinstance(s_, ast.Assign) else [s_.target]
+                        for t in tg:
+                            if isinstance(t, ast.Subscript) and isinstance(t.value, ast.Name) and t.value.id in arrs \
+                                    and not isinstance(t.slice, ast.Slice) and _lin(t.slice, env) == mid \
+                                    and any(isinstance(x, ast.Subscript) and isinstance(x.value, ast.Name) and x.value.id == t.value.id
+                                            for x in ast.walk(s_.value)):
+                                want = got
+                res[parity] = (got, want)
+            if not res:
+                continue
+            n += 1
+            if any(res[p][0] != res[p][1] for p in (0, 1)):
+                bad.append((inner, kname, res))
+    return n, bad
+
+
+def show_lin(v, q='q'):
+    a, b = v
+    s = ('%s*%s' % (a, q) if a != 1 else q) if a != 0 else ''
+    if b != 0 or not s:
+        s += ('%+d' % b) if s else '%d' % b
+    return s
